@@ -4,9 +4,7 @@ import (
 	"fmt"
 	"os"
 	"testing"
-
 )
-
 
 // TestReplay re-executes VERIF_REPLAY (a trace written by a failing run).
 // The library replays cached messages in Go map order, so a schedule that
